@@ -3,13 +3,31 @@ package main
 
 import (
 	"fmt"
-	"os"
+	"strconv"
 	"time"
 
-	"verifharness/respc"
 	"verifharness/srv"
 	"verifharness/wire"
 )
+
+func show(addr string, p wire.Proto, raw []byte) {
+	c, err := wire.Dial(addr, 3*time.Second)
+	if err != nil {
+		panic(err)
+	}
+	defer c.Close()
+	c.Write(raw)
+	c.CloseWrite()
+	to, err := c.ReadToEOF(2 * time.Second)
+	fmt.Printf("--- %s send %s\n    timedout=%v err=%v recv %s\n", p, strconv.Quote(string(raw)), to, err, strconv.Quote(string(c.Buf)))
+	fr, rest, e := wire.SplitAll(p, c.Buf)
+	for _, f := range fr {
+		fmt.Printf("    frame: %s\n", wire.Canon(p, f))
+	}
+	if e != nil {
+		fmt.Printf("    rest=%q err=%v\n", rest, e)
+	}
+}
 
 func main() {
 	bin, err := srv.Build("plain")
@@ -21,47 +39,42 @@ func main() {
 	if err != nil {
 		panic(err)
 	}
-	ctl, _ := respc.Dial(s.Addr(), 5*time.Second)
-	ctl.Timeout = 5 * time.Second
-	reset := func() {
-		if !s.Alive() {
-			_, site := s.Crashed()
-			fmt.Println("   !!! CRASHED", site)
-			s, _ = srv.Start(srv.Opts{Bin: bin})
-			ctl, _ = respc.Dial(s.Addr(), 5*time.Second)
-			ctl.Timeout = 5 * time.Second
+	a := s.Addr()
+	cat := func(bs ...[]byte) []byte {
+		var o []byte
+		for _, b := range bs {
+			o = append(o, b...)
 		}
-		ctl.Do("FLUSHDB")
-		ctl.Do("SCRIPT", "FLUSH")
-		for _, c := range wire.StateCommands(os.Args[1]) {
-			r, err := ctl.Do(c...)
-			if err != nil || r.IsErr() {
-				fmt.Println("STATE ERR", c, r, err)
-			}
-		}
-		ctl.Do("SCRIPT", "LOAD", wire.ScriptBody)
+		return o
 	}
-	for _, tm := range wire.Templates() {
-		if tm.Flags&wire.FDev != 0 {
-			continue
+	enc := func(p wire.Proto, args ...string) []byte {
+		b, ok := wire.Encode(p, args...)
+		if !ok {
+			panic(fmt.Sprint("unrepresentable ", p, args))
 		}
-		for _, mode := range []string{"resp", "json"} {
-			reset()
-			c, err := respc.Dial(s.Addr(), 3*time.Second)
-			if err != nil {
-				panic(err)
-			}
-			c.Timeout = 3 * time.Second
-			if mode == "json" {
-				c.Do("OUTPUT", "json")
-			}
-			r, err := c.Do(tm.Args()...)
-			out := r.String()
-			if len(out) > 300 {
-				out = out[:300] + "..."
-			}
-			fmt.Printf("%-22s %s  %v  %s\n", tm.ID, mode, err, out)
-			c.Close()
-		}
+		return b
 	}
+	show(a, wire.RESP, cat(enc(wire.RESP, "SET", "k", "a b", "STRING", "x\r\ny\"z"), enc(wire.RESP, "GET", "k", "a b"), enc(wire.RESP, "OUTPUT", "json"), enc(wire.RESP, "GET", "k", "a b"), enc(wire.RESP, "NOPE")))
+	show(a, wire.Telnet, cat(enc(wire.Telnet, "SET", "k", "a b", "STRING", "x\r\ny\"z\\w'q"), enc(wire.Telnet, "GET", "k", "a b"), enc(wire.Telnet, "SET", "k", "e", "STRING", ""), enc(wire.Telnet, "GET", "k", "e"), enc(wire.Telnet, "OUTPUT", "json"), enc(wire.Telnet, "GET", "k", "a b")))
+	show(a, wire.Native, cat(enc(wire.Native, "SET", "k", "n1", "POINT", "1", "2"), enc(wire.Native, "GET", "k", "n1"), enc(wire.Native, "SET", "k", "o", "OBJECT", `{"type":"Point","coordinates":[1, 2]}`), enc(wire.Native, "OUTPUT", "resp"), enc(wire.Native, "GET", "k", "n1"), enc(wire.Native, "GET", "k", "zz"), enc(wire.Native, "NOPE")))
+	show(a, wire.HTTPGet, enc(wire.HTTPGet, "GET", "k", "n1", "WITHFIELDS"))
+	show(a, wire.HTTPGet, enc(wire.HTTPGet, "SET", "k", "h\"1é", "OBJECT", `{"type":"Point","coordinates":[1, 2]}`))
+	show(a, wire.HTTPPost, enc(wire.HTTPPost, "SCAN", "k", "IDS"))
+	show(a, wire.HTTPGet, cat(enc(wire.HTTPGet, "PING"), enc(wire.HTTPGet, "PING")))
+	show(a, wire.HTTPGet, enc(wire.HTTPGet, "NEARBY", "k", "FENCE", "POINT", "1", "2", "1000"))
+	show(a, wire.Native, enc(wire.Native, "NEARBY", "k", "FENCE", "POINT", "1", "2", "1000"))
+	show(a, wire.Native, enc(wire.Native, "SUBSCRIBE", "c1"))
+	show(a, wire.HTTPGet, enc(wire.HTTPGet, "SUBSCRIBE", "c1"))
+	show(a, wire.WS, enc(wire.WS, "GET", "k", "n1"))
+	show(a, wire.WS, enc(wire.WS, "NEARBY", "k", "FENCE", "POINT", "1", "2", "1000"))
+	show(a, wire.RESP, []byte("*1\r\n$4\r\nPING\r\n*2\r\n$abc\r\n"))
+	show(a, wire.RESP, []byte("\x00\x01garbage\r\n"))
+	show(a, wire.RESP, []byte("PING\r\n\"unbalanced\r\nPING\r\n"))
+	show(a, wire.HTTPGet, []byte("GET / HTTP/1.1\r\n\r\n"))
+	show(a, wire.HTTPGet, []byte("PUT /x HTTP/1.1\r\n\r\n"))
+	show(a, wire.HTTPGet, []byte("OPTIONS /x HTTP/1.1\r\n\r\n"))
+	show(a, wire.RESP, cat(enc(wire.RESP, "QUIT"), enc(wire.RESP, "PING")))
+	show(a, wire.RESP, cat(enc(wire.RESP, "AOF", "0")))
+	show(a, wire.RESP, cat(enc(wire.RESP, "OUTPUT", "json"), enc(wire.RESP, "EVAL", "return 0/0", "0"), enc(wire.RESP, "EVAL", "return {[2]='a'}", "0"), enc(wire.RESP, "EVAL", "return print", "0"),enc(wire.RESP, "EVAL", "return 1.5", "0")))
+	fmt.Println(s.Alive())
 }
